@@ -42,6 +42,29 @@ impl Assembler {
             return Err(IllegalOrderedRead);
         } else if !ordered && self.state.is_ordered() {
             // Enter unordered mode
+            //
+            // Ordered reads trim buffered chunks that overlap already-consumed data lazily, when
+            // they reach them. Unordered reads return buffered chunks as they are, so that
+            // trimming has to happen now or consumed bytes would be delivered a second time.
+            let bytes_read = self.bytes_read;
+            let mut data = mem::take(&mut self.data).into_vec();
+            data.retain_mut(|chunk| {
+                if chunk.offset >= bytes_read {
+                    return true;
+                }
+                let len = chunk.bytes.len();
+                if chunk.offset + len as u64 <= bytes_read {
+                    self.buffered -= len;
+                    self.allocated -= chunk.allocation_size;
+                    return false;
+                }
+                let diff = (bytes_read - chunk.offset) as usize;
+                chunk.bytes.advance(diff);
+                chunk.offset += diff as u64;
+                self.buffered -= diff;
+                true
+            });
+            self.data = data.into();
             if !self.data.is_empty() {
                 // Get rid of possible duplicates
                 self.defragment();
